@@ -1126,3 +1126,23 @@ impl<'de> DeserializeSeed<'de> for DeserializeTextResource {
             .map_err(|e| -> D::Error { serde::de::Error::custom(e) })
     }
 }
+
+#[cfg(stam_verif)]
+impl TextResource {
+    /// Verification hook (read-only): raw text selection slots, position index and byte map of this resource.
+    pub fn verif_dump(&self) -> serde_json::Value {
+        serde_json::json!({
+            "textselections": self.textselections.iter().map(|t| t.as_ref().map(|t| (t.begin(), t.end(), t.handle().map(|h| h.as_usize())))).collect::<Vec<_>>(),
+            "positionindex": self.positionindex.0.iter().map(|(pos, item)| (
+                *pos,
+                item.bytepos,
+                item.begin2end.iter().map(|(e, h)| (*e, h.as_usize())).collect::<Vec<_>>(),
+                item.end2begin.iter().map(|(b, h)| (*b, h.as_usize())).collect::<Vec<_>>(),
+            )).collect::<Vec<_>>(),
+            "byte2charmap": self.byte2charmap.iter().map(|(b, c)| (*b, *c)).collect::<Vec<_>>(),
+            "textlen": self.textlen,
+            "changed": self.changed(),
+            "filename": self.filename,
+        })
+    }
+}
